@@ -242,7 +242,8 @@ class ScoOperationsRegistry(AbstractScoOperationsRegistry):
             )
             return InvocationState.FAILED
 
-        return InvocationState.FINISHED
+        # the response carries the same state as the OperationInvokedReport that was just sent
+        return execute_result.invocation_state
 
     def start_worker(self):
         """Start worker thread."""
